@@ -43,5 +43,7 @@ SEEDED = [
     ("C08-7", "C08-CONST"),
     ("C08-8", "C08-CONST"),
     ("C08-9", "C08-SAME"),
+    ("C08-10", "C08-CONST"),
+    ("C08-11", "C08-DET"),
 ]
 MUTANTS = list(MUTANTS) + [_P("seed-" + sid, _os.path.join(_SEEDS, sid, "patch.diff"), rule) for sid, rule in SEEDED if _os.path.exists(_os.path.join(_SEEDS, sid, "patch.diff"))]
